@@ -32,7 +32,9 @@ Verdict(c) ==
    \o CtxClauses(I, c.ctx, 0) \o CtxClauses(I, c.ctx, 1) \o CtxClauses(I, c.ctx, 2) \o CtxClauses(I, c.ctx, 3)
    \o << <<"contexts-not-nested",
             /\ SubNodes(c.ctx[1]) \subseteq SubNodes(c.ctx[2]) /\ SubNodes(c.ctx[2]) \subseteq SubNodes(c.ctx[3])
-            /\ SubNodes(c.ctx[3]) \subseteq SubNodes(c.ctx[4]) /\ SubNodes(c.ctx[4]) \subseteq INodes(I)>> >>)
+            /\ SubNodes(c.ctx[3]) \subseteq SubNodes(c.ctx[4]) /\ SubNodes(c.ctx[4]) \subseteq INodes(I)>>,
+         <<"context-of-a-renumbered-copy-of-the-same-object-differs",
+            \A k \in 1..4 : SubNodes(c.dctx[k]) = ContextNodes(I, k - 1)>> >>)
 
 VARIABLE i
 Init == i = 0
